@@ -369,6 +369,8 @@ BAYER_SHAPES = [(2, 2), (2, 4), (4, 2), (4, 4), (4, 6), (6, 4), (6, 6), (8, 6), 
 
 
 def correspondence(ctx):
+    for name, inp, fname in _corpus():
+        _check(ctx, name, inp, {'corpus': fname}, True, 'corpus')
     det, by, mo = _impl()
     rng = ctx.rng
     lines, todo = [], []
@@ -534,6 +536,18 @@ def correspondence(ctx):
         fn(row)
 
 
+def _corpus():
+    """minimised past failures (corpus/C16/*.json), always evaluated first"""
+    import glob
+    import json
+    import os
+    out = []
+    for path in sorted(glob.glob(os.path.join(C.VERIF, 'corpus', 'C16', '*.json'))):
+        rec = json.load(open(path))
+        out.append((rec['item'], rec['input'], os.path.basename(path)))
+    return out
+
+
 # ------------------------------------------------------------------------------------------------
 # failing-input search on the real code: small scope first
 # ------------------------------------------------------------------------------------------------
@@ -541,6 +555,10 @@ def search(ctx, hints):
     def found(name, inp, detail):
         return {'item': name, 'input': dict(inp, item=name), 'detail': detail}
 
+    for name, inp, fname in _corpus():
+        ok, detail = _run_pred(name, inp)
+        if not ok:
+            return found(name, inp, f'[corpus/{fname}] {detail}')
     # exposure: unit detector, every bit depth, a short ramp through saturation
     for bits in range(1, 33):
         cap = 2 ** bits
